@@ -234,7 +234,7 @@ class ParserEngine(ParserCore, CanParse):
 
         action = self.find_semantic_action(ri.name)
         if action:
-            parseinfo = self.make_parseinfo(node, pos)
+            parseinfo = self.make_parseinfo(ri.name, pos)
             return boundcall(
                 action,
                 {},
@@ -280,6 +280,9 @@ class ParserEngine(ParserCore, CanParse):
                 node = copy(node)
             node.set_parseinfo(parseinfo)
         elif hasattr(node, 'parseinfo'):
+            # NOTE: a model node handed on by another rule may be shared as well
+            if node.parseinfo is not None and node.parseinfo != parseinfo:
+                node = copy(node)
             node.parseinfo = parseinfo
         return node
 
